@@ -47,4 +47,16 @@ theorem mulTrunc_exact (f p : Int) : Dec.mulTruncate (f * P) p = f * p := by
   rw [this, Int.mul_tdiv_cancel _ (by decide : P ≠ 0)]
 
 
+/-- what a trace sends into one account. -/
+def sentTo (dst : String) : List (String × String × Int) → Int
+  | [] => 0
+  | (_, d, a) :: rest => (if d == dst then a else 0) + sentTo dst rest
+
+theorem sentTo_append (dst : String) (xs ys : List (String × String × Int)) :
+    sentTo dst (xs ++ ys) = sentTo dst xs + sentTo dst ys := by
+  induction xs with
+  | nil => simp [sentTo]
+  | cons x xs ih => obtain ⟨s, d, a⟩ := x; simp [sentTo, ih]; omega
+
+
 end Elys.Amm
